@@ -22,7 +22,7 @@ func init() {
 				"path parameter to the key/filename handed to the backing store is identical in Exists and Open (locals inlined, receiver/parameter renamed); (C19.dir) an Exists backed by a file " +
 				"system returns true only under the fact !info.IsDir() (or as a conjunct of the returned expression); (C19.inmem) every access to InMemLoader.files uses the key normalize(param), " +
 				"normalize is path.Join(\"/\", filepath.ToSlash(p)), Open returns a reader over the stored bytes or a non-nil error when absent; (C19.multi) Multi ranges over its loaders front to back, " +
-				"returns at the first success, and construction/AddLoaders preserve argument order (append at the end). (C19.multi, continued) AddLoaders never copies the contents of another multi loader's list. (C19.dir, continued) constructors of file-system loaders record their root as given and do not consult the file system. (C19.multi, continued) Multi.Open opens a member only where that member's Exists answered true for the same name.",
+				"returns at the first success, and construction/AddLoaders preserve argument order (append at the end). (C19.multi, continued) AddLoaders never copies the contents of another multi loader's list. (C19.dir, continued) constructors of file-system loaders record their root as given and do not consult the file system. (C19.multi, continued) Multi.Open opens a member only where that member's Exists answered true for the same name. (C19.agree name-intact) for file-system loaders the template path reaches the backing store whole: between the path parameter and the key stand only Join, Clean, FromSlash and ToSlash — no function that can remove characters of the name (TrimLeft and its character set, TrimPrefix, Replace, slicing). (C19.inmem Open, continued) what the branches establish about the presence flag of the lookup is kept in a register, whatever the flag is called and wherever it is declared.",
 			NotDecided:  "what the operating system / http.FileSystem / embed.FS return; Multi.Open choosing by first successful Open rather than first Exists (equivalent when members honour the contract); locking is C11.guard.",
 			Assumptions: []string{"os.Stat/fs.Stat/http.File.Stat report IsDir truthfully", "path.Join and filepath.ToSlash/FromSlash behave as documented"},
 			Trusted:     commonTrusted,
@@ -148,6 +148,42 @@ func runC19(c *an.Ctx) {
 		}
 		if isFS {
 			dirRule(c, ex, tname)
+			// the name reaches the file system whole: between the path parameter and the backing-store key stand only
+			// functions that re-spell separators or join and clean (Join, Clean, FromSlash, ToSlash) — anything that can
+			// remove characters of the name (TrimLeft with its character *set*, TrimPrefix, Replace, slicing) makes
+			// different template paths name one file, or a path name a file that is not under it
+			intact := true
+			offender := ""
+			for _, b := range append(append([]backing{}, bex...), bop...) {
+				if !strings.Contains(b.key, "$p0") {
+					continue
+				}
+				var checkKey func(key string, depth int)
+				checkKey = func(key string, depth int) {
+					for _, m := range regexp.MustCompile(`([A-Za-z_][A-Za-z0-9_.]*)\(`).FindAllStringSubmatch(key, -1) {
+						switch m[1] {
+						case "filepath.Join", "path.Join", "filepath.Clean", "path.Clean", "filepath.FromSlash", "filepath.ToSlash", "string":
+							continue
+						}
+						// a method of the loader that is a single `return <expression>`: what it returns is checked instead
+						if strings.HasPrefix(m[1], "r.") && depth < 3 {
+							if g := method(strings.TrimPrefix(m[1], "r.")); g != nil && g.Body != nil && len(g.Body.List) == 1 {
+								if ret, ok := g.Body.List[0].(*ast.ReturnStmt); ok && len(ret.Results) == 1 {
+									checkKey(an.Norm(g, ret.Results[0]), depth+1)
+									continue
+								}
+							}
+						}
+						intact, offender = false, m[1]+" in "+key
+					}
+					if strings.Contains(key, "$p0[") {
+						intact, offender = false, "slicing in "+key
+					}
+				}
+				checkKey(b.key, 0)
+			}
+			c.Check(intact, "C19.agree", tname+"/name-intact", ex.Pos(), "the template path reaches the file system whole (separators re-spelt, joined to the directory, nothing removed)",
+				tname+" builds the file name from the template path with "+offender+": part of the name can be removed, so distinct template paths reach one file or a path reaches a file it does not name")
 			// a file-system loader answers from the file system alone: every return of Exists and Open lies
 			// behind a backing-store access (no path is rejected or accepted on its spelling)
 			for _, m := range []struct {
@@ -452,7 +488,45 @@ func inmemRules(c *an.Ctx) {
 	// Open: returns a reader over the value read from the map, or a non-nil error when absent
 	if op := c.Fn("C19.inmem", "(*InMemLoader).Open"); op != nil {
 		oinfo := op.Info()
-		x := p.NewExplorer(op, an.Hooks{})
+		// the presence flag of the lookup `v, ok := files[key]` (whatever it is called, wherever it is declared):
+		// what the branches establish about it is kept in a register, the flag may be local to an if
+		var okIds []*ast.Ident
+		an.InspectOwn(op, func(n ast.Node) bool {
+			if as, isAs := n.(*ast.AssignStmt); isAs && len(as.Lhs) == 2 && len(as.Rhs) == 1 {
+				if ix, isIx := an.Unparen(as.Rhs[0]).(*ast.IndexExpr); isIx && p.FieldKey(oinfo, ix.X) == "InMemLoader.files" {
+					if id, isId := as.Lhs[1].(*ast.Ident); isId && id.Name != "_" {
+						okIds = append(okIds, id)
+					}
+				}
+				// … or the second result of a helper that makes the lookup (under the lock) and hands both results back
+				if call, isCall := an.Unparen(as.Rhs[0]).(*ast.CallExpr); isCall {
+					if g := p.FnByObj[an.Callee(oinfo, call)]; g != nil && g.Body != nil && g.Sig != nil && g.Sig.Results().Len() == 2 {
+						looksUp := false
+						an.InspectBody(g, func(m ast.Node) bool {
+							if ix, isIx := m.(*ast.IndexExpr); isIx && p.FieldKey(g.Info(), ix.X) == "InMemLoader.files" {
+								looksUp = true
+							}
+							return !looksUp
+						})
+						if id, isId := as.Lhs[1].(*ast.Ident); isId && id.Name != "_" && looksUp {
+							okIds = append(okIds, id)
+						}
+					}
+				}
+			}
+			return true
+		})
+		x := p.NewExplorer(op, an.Hooks{Branch: func(x *an.Explorer, cond ast.Expr, val bool, st *an.State) {
+			for _, id := range okIds {
+				if t, known := x.Truth(id, st); known {
+					if t {
+						st.Set("present", "yes")
+					} else {
+						st.Set("present", "no")
+					}
+				}
+			}
+		}})
 		x.Run(nil)
 		c.States += x.Visited
 		okOpen := true
@@ -467,8 +541,8 @@ func inmemRules(c *an.Ctx) {
 			if id, ok := errv.(*ast.Ident); ok && id.Name == "nil" {
 				errIsNil = true
 			}
-			present := an.FactIs(e.State, "ok", true)
-			absent := an.FactIs(e.State, "ok", false)
+			present := e.State.Get("present") == "yes"
+			absent := e.State.Get("present") == "no"
 			switch {
 			case errIsNil && !present:
 				okOpen = false
@@ -651,23 +725,34 @@ func multiFirstWins(c *an.Ctx, f *an.Fn) bool {
 	good, reached := true, false
 	x := p.NewExplorer(f, an.Hooks{
 		Branch: func(x *an.Explorer, cond ast.Expr, val bool, st *an.State) {
-			e := an.Unparen(cond)
-			if call, ok := e.(*ast.CallExpr); ok && an.IsCallTo(info, call, "(jet.Loader).Exists") && val {
-				st.Set("hit", "1")
-			}
-			if id, ok := e.(*ast.Ident); ok && okVars[an.ObjOf(info, id)] && val {
-				st.Set("hit", "1")
-			}
-			if b, ok := e.(*ast.BinaryExpr); ok && (b.Op == token.EQL || b.Op == token.NEQ) && an.Str(b.Y) == "nil" {
-				if id, ok := an.Unparen(b.X).(*ast.Ident); ok && errVars[an.ObjOf(info, id)] && val == (b.Op == token.EQL) {
+			branchLeaves(x, cond, val, st, func(e ast.Expr, val bool) {
+				e = an.Unparen(e)
+				if call, ok := e.(*ast.CallExpr); ok && an.IsCallTo(info, call, "(jet.Loader).Exists") && val {
+					// (the loader that says the path exists may be asked to open it: one consultation)
+					st.Set("hit", "exists")
+					if k, ok := x.Key(an.Receiver(call)); ok {
+						st.Set("hit", "exists:"+k)
+					}
+				}
+				if id, ok := e.(*ast.Ident); ok && okVars[an.ObjOf(info, id)] && val {
 					st.Set("hit", "1")
 				}
-			}
+				if b, ok := e.(*ast.BinaryExpr); ok && (b.Op == token.EQL || b.Op == token.NEQ) && an.Str(b.Y) == "nil" {
+					if id, ok := an.Unparen(b.X).(*ast.Ident); ok && errVars[an.ObjOf(info, id)] && val == (b.Op == token.EQL) {
+						st.Set("hit", "1")
+					}
+				}
+			})
 		},
 		Call: func(x *an.Explorer, call *ast.CallExpr, st *an.State) {
 			if an.IsCallTo(info, call, "(jet.Loader).Exists", "(jet.Loader).Open") {
 				reached = true
-				if st.Get("hit") != "" {
+				hit := st.Get("hit")
+				if hit != "" {
+					if k, ok := x.Key(an.Receiver(call)); ok && an.IsCallTo(info, call, "(jet.Loader).Open") && hit == "exists:"+k {
+						st.Set("hit", "") // opening what this very loader said exists; the outcome of Open decides
+						return
+					}
 					good = false
 				}
 			}
